@@ -175,3 +175,19 @@ CHECKS["C01"] = {
           "Contract.parses (compared with the real parser on real diffy output each run); the read-only-file finding is oracle-only "
           "(permission checks are not in the tree model; needs setpriv/root, otherwise counted and skipped).",
 }
+CHECKS["C07"] = {
+  "text": "Theorems over all word lists about the Lean transliteration of find_compound_variants / is_boundary / find_enhanced_matches: "
+          "an identifier = (nothing|_|__) + rendering of any word list in snake/kebab/SCREAMING_SNAKE/Train-Case/PascalCase that contains the "
+          "search words is rewritten to the same rendering with exactly the occurrences of the search words replaced (hence prefix words + "
+          "TERM + suffix words -> prefix words + REPLACEMENT + suffix words when the term occurs once); every match of the line matcher is a "
+          "boundary-checked variant hit or a compound answer on an identifier whose tokens contain the search tokens as a contiguous window; "
+          "identifiers whose word list lacks that window get no compound match and exact hits glued to a letter/digit are rejected. "
+          "Full-strength statement (any separator multiplicity) is refuted by kernel-evaluated witnesses, one per listed finding. The model is run "
+          "against the real functions on the exhaustive by-construction identifier family, the near-miss family, random and hostile inputs; an "
+          "independent by-construction oracle judges find_compound_variants, find_enhanced_matches, scan_repository+apply_plan and the CLI.",
+  "design_ref": "DESIGN.md section 4, C07",
+  "technique": "Lean 4 proof (induction over token lists on top of the C18 tokenizer lemmas) + kernel-evaluated witnesses + differential correspondence + by-construction locality oracle (in-process and CLI)",
+  "note": TB + "camelCase locality and the Title/dot paths are covered by kernel-evaluated examples and the differential check only; identifier regex "
+          "modelled for ASCII content; the enhanced op uses the style rows of the variant table (plural / as-typed rows only end-to-end); "
+          "the rendering chosen for the replacement inside the term's span is C06's concern (recorded as local_other_rendering).",
+}
